@@ -971,7 +971,10 @@ impl Formatter {
                 self.writer.write("f\"");
                 for part in parts {
                     match part {
-                        FStringPart::Literal(s) => self.writer.write(s),
+                        // Literal text is re-lexed: escapes are processed and single braces start an expression.
+                        FStringPart::Literal(s) => self
+                            .writer
+                            .write(&escape_string(s).replace('{', "{{").replace('}', "}}")),
                         FStringPart::Expr(expr) => {
                             self.writer.write("{");
                             self.format_expr(&expr.node);
